@@ -64,10 +64,14 @@ Init == l = 1
 Next == /\ l <= Len(Rec)
         /\ LET e == Rec[l]
                \* a joiner behind a link slower than the initial request timeout still bootstraps (the adaptive timeout learns from late answers)
+               \* every server a lookup missed had two or more node ids listed at its IP (a stale id shadows the current one in the
+               \* candidate list: the per-IP rule of KF-C07-1 / KF-C11-1)
+               onlyShadowed == e.e = "net" /\ \A j \in 1..Len(e.lookups) :
+                                  \A k \in 1..Len(e.lookups[j].missed_ids_listed) : e.lookups[j].missed_ids_listed[k][2] >= 2
                f == IF e.e = "slowjoin"
                     THEN (IF e.joined /\ e.bootstrapped THEN {} ELSE {"C13_SlowLinkJoins"}) \cup (IF e.panicked THEN {"C13_NoPanic"} ELSE {})
                     ELSE Check(e) IN
-           IF f # {} THEN PrintT(<<"VIOL", ToJson([line |-> l, b |-> e.b, failed |-> f, spec |-> e.spec])>>) ELSE TRUE
+           IF f # {} THEN PrintT(<<"VIOL", ToJson([line |-> l, b |-> e.b, failed |-> f, spec |-> e.spec, only_shadowed |-> onlyShadowed])>>) ELSE TRUE
         /\ l' = l + 1
 Spec == Init /\ [][Next]_l
 TraceAccepted == IF TLCGet("stats").diameter - 1 = Len(Rec) THEN TRUE
